@@ -585,6 +585,12 @@ func VerifyNODATAForZoneWithWork(
 		if q.Qtype == dns.TypeDS && typesSet(types, dns.TypeSOA) {
 			return false, ErrNSECBadDelegation
 		}
+		// The converse (RFC 6840 §4.1): the parent's NSEC3 at a zone
+		// cut speaks for DS only; every other type at that owner lives
+		// in the child.
+		if q.Qtype != dns.TypeDS && aggressiveDelegationBitmap(types) {
+			return false, ErrNSECBadDelegation
+		}
 		return true, nil
 	} else if err != ErrNSECMissingCoverage {
 		return false, err
